@@ -21,7 +21,7 @@ ffc1b5e C13 C13.provenance
 3d6d1f1 C06 C06.nullpages
 64ed3a0 C05 C05.indexer
 bd9528d+f5b4fd7 C17 C17.reset
-ba3ecd5 C17 C17.reset
+d7c8347+ba3ecd5 C17 C17.reset
 bd9528d C17 C17.own
 d0cc302 C11 C11.rows
 8bd7895 C08 C08.coherence
@@ -36,6 +36,8 @@ bb6a35c C08 C08.position
 c15ed5e C08 C08.reset
 8c82aca C10 C10.direction
 1da8b63 C09 C09.bounds
+d7c8347 C18 C18.fileid
+4c9c370 C20 C20.retry
 508f87a C17 C17.reset
 200dc39 C07 C07.strategies
 e6f927d C16 C16.destreads
